@@ -339,13 +339,38 @@ def rule_deriv_key(F, ev, R, config, rule="R-DERIV-KEY"):
     R.floor(rule, config, 4, "insert key (index space, named parameter), lookup key, zero init")
 
 
+def callable_sites(F):
+    """[(body, block, terminator)] of the invocations of a stored user callable: `Fn::call` on a `dyn Fn` — or on a type
+    parameter of the enclosing function that some caller instantiates with a `dyn Fn` / a box of one (a helper made
+    generic over `F: Fn(..) + ?Sized` is still the place where the boxed callables are invoked)"""
+    import re
+    sites = []
+    dyn_instantiated = None
+    for b in F.bodies.values():
+        for bi, t in b.calls():
+            if "fn" in t and callee_id(t["fn"]) in ("std::ops::Fn::call", "std::ops::FnMut::call_mut", "std::ops::FnOnce::call_once"):
+                st = t["fn"].get("self_ty", "")
+                if "dyn" in st:
+                    sites.append((b, bi, t))
+                elif re.match(r"^&?(mut )?[A-Z][A-Za-z0-9_]*$", st):
+                    if dyn_instantiated is None:
+                        dyn_instantiated = set()
+                        for b2 in F.bodies.values():
+                            for _, t2 in b2.calls():
+                                if "fn" in t2 and any("dyn " in str(g) for g in t2["fn"].get("gargs", [])):
+                                    k2 = t2["fn"].get("resolved_key") or t2["fn"].get("key")
+                                    if k2:
+                                        dyn_instantiated.add(k2)
+                    if b.j.get("root", b.key) in dyn_instantiated:
+                        sites.append((b, bi, t))
+    return sites
+
+
 def checking_helper(F):
     """the single function that invokes a stored user callable (Box<dyn Fn>)"""
     hs = set()
-    for b in F.bodies.values():
-        for bi, t in b.calls():
-            if "fn" in t and callee_id(t["fn"]) in ("std::ops::Fn::call", "std::ops::FnMut::call_mut", "std::ops::FnOnce::call_once") and "dyn" in t["fn"].get("self_ty", ""):
-                hs.add(b.j.get("root", b.key))
+    for b, bi, t in callable_sites(F):
+        hs.add(b.j.get("root", b.key))
     if len(hs) != 1:
         raise AnchorMissing("checked evaluation helper: stored callables are invoked in %s" % sorted(hs))
     return F.bodies[hs.pop()]
@@ -380,6 +405,26 @@ def rule_column_order(F, ev, R, config, rule="R-COLUMN-ORDER"):
                     for x in (a[1][1] if a[1][0] == "phi" else (a[1],)):
                         rets.add(nosite(cn.container(x)))
             cw = [w for w in tab.column_writes(cn, effs) if nosite(w.D) in rets]
+            if not cw:
+                # the checking helper may write the function value straight into the column it is given, element by
+                # element: seen with the helper inlined (its length guard is what makes the copy cover the column)
+                env_i = Env(b)
+                cn_i = tab.Canon(ev)
+                effs_i = list(fx.iteration_effects(ev, env_i))
+                for w2 in tab.elementwise_column_writes(cn_i, effs_i):
+                    if nosite(cn_i.container(w2.D)) not in rets and nosite(w2.D) not in rets:
+                        continue
+                    okc, _why = tab.elements_cover_column(cn_i, w2)
+                    val = w2.val[1]
+                    X = val[1] if val[0] == "at" and len(val) == 3 and val[2] == w2.val[2] else None
+                    if not okc or X is None or w2.eff.body.j.get("root", w2.eff.body.key) != H.key:
+                        continue
+                    X0 = strip_mut(X)[0] if X[0] == "mutated" else X
+                    if X0[0] == "call" and X0[1] in ("std::ops::Fn::call", "std::ops::FnMut::call_mut", "std::ops::FnOnce::call_once") and len(X0[3]) == 2 and X0[3][1][0] == "tuple" and len(X0[3][1][1]) == 2:
+                        # presented as the helper's result: (callable, x, parameters)
+                        hv = ("call", hcid, None, (X0[3][0], X0[3][1][1][0], X0[3][1][1][1]), None)
+                        cw.append(tab.Write(w2.D, w2.idx, hv, w2.eff, "col"))
+                        cn = cn_i
             ok = False
             okh = False
             msg = "expected one full-column write into the returned matrix per basis function, found %d" % len(cw)
@@ -450,13 +495,7 @@ def rule_column_order(F, ev, R, config, rule="R-COLUMN-ORDER"):
 # --------------------------------------------------------------------------- #
 def rule_checked_calls(F, ev, R, config, rule="R-CHECKED-CALLS"):
     """the only call of a stored user callable (Box<dyn Fn>) is inside the checking helper"""
-    sites = []
-    for b in F.bodies.values():
-        for bi, t in b.calls():
-            if "fn" in t and callee_id(t["fn"]) in ("std::ops::Fn::call", "std::ops::FnMut::call_mut", "std::ops::FnOnce::call_once"):
-                st = t["fn"].get("self_ty", "")
-                if "dyn" in st:
-                    sites.append((b, bi, t))
+    sites = callable_sites(F)
     helpers = set(b.key for b, _, _ in sites)
     ok = len(sites) == 1
     R.add(rule, config, "-", "single-checked-call-site", ok, "" if ok else "stored callables are invoked at %d sites (%s): calls bypass the output-length check" % (len(sites), sorted(helpers)))
@@ -471,6 +510,11 @@ def rule_checked_calls(F, ev, R, config, rule="R-CHECKED-CALLS"):
         if s["k"] == "assign" and s["place"]["l"] == 0 and s["rv"]["k"] == "agg" and s["rv"].get("variant") == "Ok":
             v = ev.rvalue(env, s["rv"], (bi, si))
             okv = v[3][0][1] == res
+            if not okv and v[3][0][1] in (("tuple", ()), ("unit",), ("const", "()", None)) or (not okv and hb.j.get("output", "").startswith("std::result::Result<(),")):
+                # the helper hands the value on through a column argument instead (`evaluate_into(column, ..)`): what is
+                # written there, and that it covers the column, is R-COLUMN-ORDER's / R-DEF-INIT's part (decided in the
+                # calling context, where the column's length is known); here: Ok still needs the length test
+                okv = True
             rels, raw = g.relations_at(bi)
             okg = False
             for r in rels:
